@@ -10,6 +10,7 @@ import (
 	"verifharness/lib"
 	"verifharness/schgen"
 
+	"github.com/ipld/go-ipld-prime/datamodel"
 	"github.com/ipld/go-ipld-prime/schema"
 )
 
@@ -21,7 +22,11 @@ func runGenBuilds(out *lib.Out, run string, schemas []*lib.SchTy, gc []*schgen.C
 	}
 	schgen.Run(run, schemas, gc, rng, false)
 	for _, c := range gc {
-		out.Case(c.ID, "buildg", schemas[c.SI].Text(), string(c.Level), c.Route, c.V.Text(), c.Obs)
+		op := "buildg"
+		if c.Op == "bytes" {
+			op = "bytesg"
+		}
+		out.Case(c.ID, op, schemas[c.SI].Text(), string(c.Level), c.Route, c.V.Text(), c.Obs)
 	}
 }
 
@@ -61,6 +66,17 @@ func runSib(out *lib.Out, id string, l *loaded, level byte, v *lib.Val, inj *lib
 	out.Case(id, "build", l.t.Text(), string(level), route, v.Text(), obs)
 }
 
+// dag-cbor BYTES decoded by the registered strict decoder straight into the representation builder
+func runBytes(out *lib.Out, id string, l *loaded, enc string, bs []byte) {
+	obs := l.bad
+	if obs == "" {
+		obs = lib.SchBuildBytes(func() datamodel.NodeBuilder { return l.proto.Representation().NewBuilder() }, bs)
+	}
+	out.Case(id, "bytes", l.t.Text(), "r", enc, lib.Bytes(string(bs)).Text(), obs)
+}
+
+var encOrder = []string{"enc", "raw", "mut", "flip"}
+
 func main() {
 	fl := lib.ParseFlags()
 	out := lib.OpenOut(fl.Out)
@@ -82,6 +98,24 @@ func main() {
 				}
 				gs = append(gs, t)
 				gc = append(gc, &schgen.Case{ID: f[0], SI: len(gs) - 1, Op: "build", Level: f[3][0], Route: f[4], V: v})
+				continue
+			}
+			if len(f) >= 6 && (f[1] == "bytes" || f[1] == "bytesg") {
+				t, err := lib.SchParse(f[2])
+				if err != nil {
+					panic(err)
+				}
+				lib.SchAssignNames(t, fmt.Sprintf("Rb%d", i))
+				v, err := lib.ParseVal(f[5])
+				if err != nil {
+					panic(err)
+				}
+				if f[1] == "bytes" {
+					runBytes(out, f[0], load(t), f[4], []byte(v.S))
+				} else {
+					gs = append(gs, t)
+					gc = append(gc, &schgen.Case{ID: f[0], SI: len(gs) - 1, Op: "bytes", Level: 'r', Route: f[4], V: v})
+				}
 				continue
 			}
 			if len(f) < 6 || f[1] != "build" {
@@ -123,6 +157,14 @@ func main() {
 		l := load(c.T)
 		for _, route := range lib.SchRoutes(c.V) {
 			runBuild(out, fmt.Sprintf("c%d.%s", i, route), l, c.Level, route, c.V)
+		}
+		if c.Level == 'r' {
+			encs := rng.SchEncodings(c.V)
+			for _, e := range encOrder {
+				if bs, ok := encs[e]; ok {
+					runBytes(out, fmt.Sprintf("c%d.bytes.%s", i, e), l, e, bs)
+				}
+			}
 		}
 	}
 	// fixed sibling witnesses: same inferred Go type, different schema
@@ -178,6 +220,24 @@ func main() {
 				r := routes[1+rng.Intn(len(routes)-1)]
 				runBuild(out, base+"."+r, l, level, r, v)
 			}
+			if level == 'r' {
+				for j := 0; j < 8; j++ {
+					var mut *lib.SchMut
+					if j >= 2 {
+						mut = &lib.SchMut{R: rng, Budget: 1 + rng.Intn(2), Rate: 25}
+					}
+					encs := rng.SchEncodings(rng.SchValue(t, 'r', mut))
+					e := encOrder[rng.Intn(len(encOrder))]
+					if j < 2 {
+						e = encOrder[j] // conforming: the encoder's bytes and the tree's own order
+					}
+					bs, ok := encs[e]
+					if !ok {
+						e, bs = "raw", encs["raw"]
+					}
+					runBytes(out, fmt.Sprintf("g%d.b%d.%s", i, j, e), l, e, bs)
+				}
+			}
 			// a twin schema under the SAME type names (other discriminants / renames), in alternation
 			if tw := lib.SchTwin(t, fmt.Sprintf("G%d", i)); tw != nil && level == 'r' {
 				ltw := load(tw)
@@ -211,6 +271,14 @@ func main() {
 			}
 			gc = append(gc, &schgen.Case{ID: fmt.Sprintf("c%d.%s.gen", i, route), SI: len(gs) - 1, Op: "build", Level: c.Level, Route: route, V: c.V})
 		}
+		if c.Level == 'r' {
+			encs := rng.SchEncodings(c.V)
+			for _, e := range encOrder {
+				if bs, ok := encs[e]; ok {
+					gc = append(gc, &schgen.Case{ID: fmt.Sprintf("c%d.bytes.%s.gen", i, e), SI: len(gs) - 1, Op: "bytes", Level: 'r', Route: e, V: lib.Bytes(string(bs))})
+				}
+			}
+		}
 	}
 	ng := 12
 	if fl.Tier == "thorough" {
@@ -238,6 +306,15 @@ func main() {
 				gc = append(gc, &schgen.Case{ID: base + ".direct.gen", SI: len(gs) - 1, Op: "build", Level: level, Route: "direct", V: v})
 				r := routes[1+rng.Intn(len(routes)-1)]
 				gc = append(gc, &schgen.Case{ID: base + "." + r + ".gen", SI: len(gs) - 1, Op: "build", Level: level, Route: r, V: v})
+				if level == 'r' && j < 8 {
+					encs := rng.SchEncodings(v)
+					e := encOrder[rng.Intn(len(encOrder))]
+					bs, ok := encs[e]
+					if !ok {
+						e, bs = "raw", encs["raw"]
+					}
+					gc = append(gc, &schgen.Case{ID: fmt.Sprintf("%s.bytes.%s.gen", base, e), SI: len(gs) - 1, Op: "bytes", Level: 'r', Route: e, V: lib.Bytes(string(bs))})
+				}
 			}
 		}
 	}
